@@ -70,38 +70,41 @@ type treeLine struct {
 	Cells []cell `json:"cells"`
 }
 
+// Entries carry no copy of the query: entry i of a batch answers query i of the
+// case's list (qpts for closest/contain, ranges for range, rays otherwise).
 type closestEntry struct {
-	Q   []int   `json:"q"`
-	St  string  `json:"st"`
-	Nan bool    `json:"nan"`
-	D2  []int   `json:"d2"`
-	Cp  [][]int `json:"cp"`
-	Ri  int     `json:"ri"`
-	Rp  []int   `json:"rp"`
+	D2 []int   `json:"d2"`
+	Cp [][]int `json:"cp"`
+	Ri int     `json:"ri"`
+	Rp []int   `json:"rp"`
 }
 
 type setEntry struct {
-	Q    []int  `json:"q"`
-	St   string `json:"st"`
-	Hit  []int  `json:"hit"`
-	Res  []int  `json:"res"`
-	Trav []int  `json:"trav"`
+	Hit []int `json:"hit"`
+	Res []int `json:"res"`
+}
+
+type rayEntry struct {
+	Hit  []int `json:"hit"`
+	Res  []int `json:"res"`
+	Trav []int `json:"trav"`
 }
 
 type nearEntry struct {
-	Q    []int  `json:"q"`
-	St   string `json:"st"`
-	Nan  bool   `json:"nan"`
-	Te   []int  `json:"te"`
-	Hitb []int  `json:"hitb"`
-	Vis  []int  `json:"vis"`
-	Ri   int    `json:"ri"`
-	Rt   int    `json:"rt"`
+	Te   []int `json:"te"`
+	Hitb []int `json:"hitb"`
+	Vis  []int `json:"vis"`
+	Ri   int   `json:"ri"`
+	Rt   int   `json:"rt"`
 }
 
+// batchLine: fail lists the (1-based) entries whose call panicked, nan those
+// with a non-finite or out-of-budget real among the facts or the answer.
 type batchLine struct {
 	K    string      `json:"k"`
 	Case int         `json:"case"`
+	Fail []int       `json:"fail"`
+	Nan  []int       `json:"nan"`
 	B    interface{} `json:"b"`
 }
 
@@ -113,8 +116,6 @@ type hitRes struct {
 }
 
 type hitEntry struct {
-	Q    []int  `json:"q"`
-	Nan  bool   `json:"nan"`
 	Te   []int  `json:"te"`
 	List hitRes `json:"list"`
 	Bvh  hitRes `json:"bvh"`
